@@ -634,6 +634,27 @@ class Engine:
             if base in ("Eq", "Ne") and a2[0] == "bool":
                 # bool == sym  -> sym or not sym
                 return ("app", base, (a2, b2))
+            # canonical form of an order comparison with an exact integer constant: Le(x, k) or Gt(x, k), constant on the right
+            # (x < 2, 2 > x, 1 >= x all become Le(x, 1)), so that rules recognise one spelling of e.g. `is a truth value`
+            if base in ("Lt", "Le", "Gt", "Ge"):
+                ca = a2[0] == "int" and a2[1] == a2[2]
+                cb = b2[0] == "int" and b2[1] == b2[2]
+                if cb and not ca:
+                    k = b2[1]
+                    if base == "Lt" and k >= 1:
+                        return ("app", "Le", (a2, vint(k - 1)))
+                    if base == "Ge" and k >= 1:
+                        return ("app", "Gt", (a2, vint(k - 1)))
+                elif ca and not cb:
+                    k = a2[1]
+                    if base == "Lt":
+                        return ("app", "Gt", (b2, a2))
+                    if base == "Le" and k >= 1:
+                        return ("app", "Gt", (b2, vint(k - 1)))
+                    if base == "Gt" and k >= 1:
+                        return ("app", "Le", (b2, vint(k - 1)))
+                    if base == "Ge":
+                        return ("app", "Le", (b2, a2))
             return ("app", base, (a2, b2))
         if base in ("BitAnd", "BitOr", "BitXor"):
             if a[0] == "bool" and b[0] == "bool":
